@@ -46,12 +46,12 @@ Proof. intros H fp H1 H2. dispatch_cases fp. Qed.
 Lemma dispatch_refuted_if_witness_trig :
   get_func_moment mixed_witness = DTrig ->
   exists fp, has_trig fp = true /\ has_exp fp = true /\ get_func_moment fp = DTrig /\
-    forall (R : cring) (Iu : R) (mom : nat -> R) (cf : Z -> R) (dcf : nat -> Z -> R),
-      get_trig_moment_num R Iu mom cf dcf fp = get_trig_moment_num R Iu mom cf dcf [("Sin", 1%nat)] /\
-      get_trig_moment_den R Iu mom cf dcf fp = get_trig_moment_den R Iu mom cf dcf [("Sin", 1%nat)].
+    forall (R : cring) (Iu : R) (tn : bool) (mom : nat -> R) (cf : Z -> R) (dcf : nat -> Z -> R),
+      get_trig_moment_num R Iu tn mom cf dcf fp = get_trig_moment_num R Iu tn mom cf dcf [("Sin", 1%nat)] /\
+      get_trig_moment_den R Iu tn mom cf dcf fp = get_trig_moment_den R Iu tn mom cf dcf [("Sin", 1%nat)].
 Proof.
   intros H. exists mixed_witness. split; [reflexivity|]. split; [reflexivity|]. split; [exact H|].
-  intros R Iu mom cf dcf. split; reflexivity.
+  intros R Iu tn mom cf dcf. split; reflexivity.
 Qed.
 
 (* ------------------------------------------------------------------------------------ *)
@@ -77,6 +77,7 @@ Section Trig.
   Qed.
 
   Variable Iu : R.
+  Variable tn : bool.     (* isinstance(dist, TruncNormal): irrelevant for the value *)
   (* e m stands for exp(i m) *)
   Variable e : Z -> R.
   Hypothesis e_0 : e 0%Z = r1.
@@ -103,7 +104,7 @@ Section Trig.
      the moment) *)
   Lemma trig_num_as_sum (L : zlaw R) fp :
     Ez L (fun _ => r1) = r1 ->
-    get_trig_moment_num R Iu (mom_of L) (tf_of e L) (dtf_of e Iu L) fp
+    get_trig_moment_num R Iu tn (mom_of L) (tf_of e L) (dtf_of e Iu L) fp
     = rsum (seq 0 (S (fget "Cos" fp))) (fun k1 => rsum (seq 0 (S (fget "Sin" fp))) (fun k2 =>
         zr (binom (fget "Cos" fp) k1 * binom (fget "Sin" fp) k2 * (-1) ^ Z.of_nat (fget "Sin" fp - k2))
         * dtf_of e Iu L (fget "Id" fp)
@@ -119,15 +120,13 @@ Section Trig.
     - intros acc k1. apply fold_left_step. intros acc2 k2. f_equal. f_equal.
       set (m := (2 * (Z.of_nat k1 + Z.of_nat k2) - Z.of_nat (fget "Cos" fp) - Z.of_nat (fget "Sin" fp))%Z).
       set (a := fget "Id" fp).
-      destruct (Z.eqb_spec m 0) as [Hm0|Hm0]; destruct (Nat.eqb_spec a 0) as [Ha|Ha]; cbn [andb].
-      + try rewrite Hm0; rewrite Ha; first [reflexivity | symmetry; apply dtf_mass; exact Hmass].
-      + try rewrite Hm0; first [reflexivity | symmetry; apply dtf_zero_freq].
-      + rewrite Ha. reflexivity.
-      + reflexivity.
+      destruct (Z.eqb_spec m 0) as [Hm0|Hm0]; destruct (Nat.eqb_spec a 0) as [Ha|Ha]; destruct tn; cbn [andb negb];
+        try (rewrite Hm0); try (rewrite Ha);
+        first [reflexivity | symmetry; apply dtf_mass; exact Hmass | symmetry; apply dtf_zero_freq].
   Qed.
 
   Lemma trig_den_eq (mom : nat -> R) (cf : Z -> R) (dcf : nat -> Z -> R) fp :
-    get_trig_moment_den R Iu mom cf dcf fp
+    get_trig_moment_den R Iu tn mom cf dcf fp
     = rpow Iu (fget "Id" fp + fget "Sin" fp) * rpow (zr 2) (fget "Cos" fp + fget "Sin" fp).
   Proof. unfold get_trig_moment_den. rewrite !fget_if. cbv zeta. rewrite zr_pow. reflexivity. Qed.
 
@@ -153,9 +152,9 @@ Section Trig.
      is ((z^v - z^-v)/(2i))^b ((z^v + z^-v)/2)^c = sin^b(v) cos^c(v) written with z = exp(i). *)
   Definition dirac (v : Z) : zlaw R := [(r1, v)].
   Theorem prod_to_sum_gen (b c : nat) (v : Z) :
-    get_trig_moment_num R Iu (mom_of (dirac v)) (tf_of e (dirac v)) (dtf_of e Iu (dirac v)) [("Sin", b); ("Cos", c)]
+    get_trig_moment_num R Iu tn (mom_of (dirac v)) (tf_of e (dirac v)) (dtf_of e Iu (dirac v)) [("Sin", b); ("Cos", c)]
     = rpow (e v - e (- v)%Z) b * rpow (e v + e (- v)%Z) c
-    /\ get_trig_moment_den R Iu (mom_of (dirac v)) (tf_of e (dirac v)) (dtf_of e Iu (dirac v)) [("Sin", b); ("Cos", c)]
+    /\ get_trig_moment_den R Iu tn (mom_of (dirac v)) (tf_of e (dirac v)) (dtf_of e Iu (dirac v)) [("Sin", b); ("Cos", c)]
        = rpow Iu b * rpow (zr 2) (c + b).
   Proof.
     split.
@@ -178,8 +177,8 @@ Section Trig.
      E[X^a sin^b(X) cos^c(X)] = sum_j p_j v_j^a sin(v_j)^b cos(v_j)^c. *)
   Theorem trig_moment_discrete_exact (L : zlaw R) (fp : fdict) :
     Ez L (fun _ => r1) = r1 ->
-    get_trig_moment_num R Iu (mom_of L) (tf_of e L) (dtf_of e Iu L) fp
-    = get_trig_moment_den R Iu (mom_of L) (tf_of e L) (dtf_of e Iu L) fp
+    get_trig_moment_num R Iu tn (mom_of L) (tf_of e L) (dtf_of e Iu L) fp
+    = get_trig_moment_den R Iu tn (mom_of L) (tf_of e L) (dtf_of e Iu L) fp
       * Ez L (fun v => rpow (zr v) (fget "Id" fp) * rpow (sn v) (fget "Sin" fp) * rpow (cs v) (fget "Cos" fp)).
   Proof.
     intros Hmass. rewrite trig_num_as_sum by exact Hmass. rewrite trig_den_eq.
